@@ -59,9 +59,24 @@ class SrcError(Exception):
         self.code = code
 
 
+FRAME_NAMES = ("next_item_tasks", "active_generators", "exception_to_raise", "stopped_on_first_completion")
+
+
 def merge_frame(agen):
+    """Locals of the suspended merge_generators frame (observation only).  The observer depends on the
+    names of four locals; if they are renamed the check stops with a machinery error, not a verdict."""
     fr = agen.ag_frame
-    return None if fr is None else fr.f_locals
+    if fr is None:
+        return None
+    loc = fr.f_locals
+    if "next_item_tasks" in loc or "generators" in loc:
+        started = "next_item_tasks" in loc
+        if started and any(n not in loc for n in FRAME_NAMES):
+            import core
+            raise core.CheckError("merge_generators frame layout changed: expected locals %s" % (FRAME_NAMES,))
+        return loc
+    import core
+    raise core.CheckError("merge_generators frame layout changed: no local `next_item_tasks`/`generators`")
 
 
 def idx_of_task(loc, t):
@@ -353,16 +368,29 @@ def run_dsp(rng, items, keys, delays, debounce, maxwin, junk_n=0):
     return log, out, bool(finished)
 
 
-def dsp_monitor(items, keys, out):
-    """C29, second sentence: every item once; for some split of the input into burst + later items the
-    output is the burst stably sorted by key followed by the later items in arrival order."""
+def dsp_monitor(items, keys, out, delays=None, debounce=None, maxwin=None):
+    """C29, second sentence: every item once; for some split of the input into initial burst + later items
+    the output is the burst stably sorted by key followed by the later items in arrival order.  With the
+    timing known the split is constrained: items arriving strictly before the first moment the window can
+    end (min(debounce, max window) after the start) belong to the burst, items arriving strictly after
+    the max window are later items."""
     if sorted(out) != sorted(items):
         return ("dsp-items", "input %s, yielded %s" % (items, out))
-    for b in range(len(items) + 1):
+    lo, hi = 0, len(items)
+    if delays is not None:
+        t, arr = 0.0, []
+        for k in range(len(items)):
+            t += delays[k]
+            arr.append(t)
+        lo = sum(1 for a in arr if a < min(debounce, maxwin))
+        hi = sum(1 for a in arr if a <= maxwin)
+    for b in range(lo, hi + 1):
         if out[b:] == items[b:] and out[:b] == sorted(items[:b], key=lambda v: keys[v]):
             return None
-    return ("dsp-order", "input %s (keys %s) yielded as %s: no burst/later split explains it — a later item "
-                         "was yielded before the sorted burst" % (items, [keys[v] for v in items], out))
+    return ("dsp-order", "input %s (keys %s, arrival delays %s, debounce %s, max window %s) yielded as %s: not "
+                         "<initial burst sorted by key> + <later items in arrival order> for any admissible burst "
+                         "(at least the first %d, at most the first %d items)"
+            % (items, [keys[v] for v in items], delays, debounce, maxwin, out, lo, hi))
 
 
 def gen_dsp(rng):
